@@ -82,8 +82,8 @@ def cq_natlist(l):
 
 
 def cq_fixes(fx):
-    return "(mkFixes %s %s %s %s %s)" % tuple(coq_bool(fx[k]) for k in
-                                              ("skip_child", "sorted_enum", "dash_hides", "num_unset", "remove_safe"))
+    return "(mkFixes %s %s %s %s %s %s)" % tuple(coq_bool(fx[k]) for k in (
+        "skip_child", "sorted_enum", "dash_hides", "num_unset", "remove_safe", "dot_safe"))
 
 
 STRIP = {"none": "StripNone", "nonencoded": "StripNonencoded", "full": "StripFull"}
@@ -117,6 +117,9 @@ def probe_jobs():
         # hiding the same file twice
         {"op": "c07_listing", "dir": "/", "kinds": ["umn"], "perms": [[0, 1]],
          "tree": [f("b.txt"), f(".names", "Path=./b.txt\nType=X\n\nPath=./b.txt\nType=X\n")]},
+        # D22: a dangling symlink whose name starts with a dot
+        {"op": "c07_listing", "dir": "/", "kinds": ["umn"], "perms": [[0, 1]],
+         "tree": [f("a.txt"), {"path": ".zz", "kind": "symlink", "target": "nowhere"}]},
     ]
 
 
@@ -135,6 +138,7 @@ def probe_fixes(res):
     fx["num_unset"] = nums == [7]
     r = only(res[4], "umn")[0]["result"]
     fx["remove_safe"] = "entries" in r
+    fx["dot_safe"] = "entries" in only(res[5], "umn")[0]["result"]
     return fx
 
 
